@@ -314,6 +314,13 @@ func cmdCheck(args []string) int {
 	wg.Wait()
 
 	nOb, nDis, nVac := 0, 0, 0
+	deadReturns := 0
+	reachableReturns := map[string]int{}
+	for _, o := range allObs {
+		if o.Kind == "vacuity.return" && o.Result.Status != "unsat" {
+			reachableReturns[o.Func]++
+		}
+	}
 	solverTime := int64(0)
 	perOb := []map[string]interface{}{}
 	var samples []interface{}
@@ -338,6 +345,12 @@ func cmdCheck(args []string) int {
 			nVac++
 			if fr != nil {
 				fr.Vacuity++
+			}
+			if o.Result.Status == "unsat" && o.Kind == "vacuity.return" && reachableReturns[o.Func] > 0 {
+				// dead code in the source (an unreachable return) is not a vacuous proof as long as
+				// some return of the function is reachable under the contract assumptions
+				deadReturns++
+				continue
 			}
 			if o.Result.Status == "unsat" {
 				fmt.Printf("FAILED %s: assumptions are contradictory (vacuous proof)\n", o.Name)
@@ -422,7 +435,7 @@ func cmdCheck(args []string) int {
 	sort.Strings(tl)
 	writeEvidence(*verif, &claim, *tier, seed, reports, perOb, samples, time.Since(start), violations, map[string]interface{}{
 		"obligations": nOb, "discharged": nDis, "vacuity_checks": nVac, "solver_time_s": float64(solverTime) / 1000.0,
-		"trusted_used": tl, "bounded_checks": boundedRes,
+		"trusted_used": tl, "bounded_checks": boundedRes, "unreachable_returns_in_source": deadReturns,
 	}, nDis)
 	fmt.Printf("%s %s: %d/%d obligations discharged, %d vacuity guards, %d functions+lemmas, %.1fs\n", claim.ID, *tier, nDis, nOb, nVac, len(reports), time.Since(start).Seconds())
 	if violations > 0 {
